@@ -17,6 +17,7 @@ import (
 	"github.com/twmb/franz-go/pkg/kgo"
 	"github.com/twmb/franz-go/pkg/kmsg"
 	"github.com/twmb/franz-go/pkg/kversion"
+	"github.com/twmb/franz-go/pkg/sasl/plain"
 
 	"verif/lib/netctl"
 	"verif/lib/nscen"
@@ -88,6 +89,10 @@ func (c Cfg) Valid() bool {
 	}
 	switch c.Shape {
 	case ShapeAll, ShapeUnk, ShapeDup, ShapeOne:
+	case ShapeMix: // two distinct metadata mapping errors: the kinds split by topic metadata
+		if k.Cat != "part" && k.Cat != "replica" {
+			return false
+		}
 	default:
 		return false
 	}
@@ -224,7 +229,27 @@ func Scenario(cfg Cfg) *netctl.Scenario {
 }
 
 func setup(x *netctl.Exec, cfg Cfg, kind *Kind) {
-	c := x.Cluster(cfg.NB, kfake.SeedTopics(3, "t"), kfake.SeedTopics(1, "s"))
+	copts := []kfake.Opt{kfake.SeedTopics(3, "t"), kfake.SeedTopics(1, "s")}
+	var csasl, hsasl []kgo.Opt // SASL of the controlled client / of helper clients
+	if cfg.Shape == ShapeMix {
+		// A cluster with ACLs: alice may do everything on every topic and on
+		// the cluster, except anything on topic d, which exists. Metadata
+		// answers TOPIC_AUTHORIZATION_FAILED for d and
+		// UNKNOWN_TOPIC_OR_PARTITION for u: two distinct mapping errors in
+		// one request. Helpers stay on the superuser.
+		acl := func(rt kmsg.ACLResourceType, name string, allow bool) kfake.ACL {
+			return kfake.ACL{Resource: rt, Name: name, Pattern: kmsg.ACLResourcePatternTypeLiteral, Operation: kmsg.ACLOperationAll, Allow: allow}
+		}
+		copts = append(copts, kfake.SeedTopics(1, "d"), kfake.EnableSASL(), kfake.EnableACLs(),
+			kfake.Superuser("PLAIN", "admin", "admin"),
+			kfake.User("PLAIN", "alice", "alicepw",
+				acl(kmsg.ACLResourceTypeTopic, "*", true),
+				acl(kmsg.ACLResourceTypeTopic, "d", false),
+				acl(kmsg.ACLResourceTypeCluster, "kafka-cluster", true)))
+		csasl = []kgo.Opt{kgo.SASL(plain.Auth{User: "alice", Pass: "alicepw"}.AsMechanism())}
+		hsasl = []kgo.Opt{kgo.SASL(plain.Auth{User: "admin", Pass: "admin"}.AsMechanism())}
+	}
+	c := x.Cluster(cfg.NB, copts...)
 	ld := leaders(cfg.NB, cfg.Layout)
 	for p, n := range ld {
 		if err := c.MoveTopicPartition("t", int32(p), n); err != nil {
@@ -248,7 +273,7 @@ func setup(x *netctl.Exec, cfg Cfg, kind *Kind) {
 		// OffsetCommit v10 addresses topics by id; the helper commits by name.
 		vers := kversion.Stable()
 		vers.SetMaxKeyVersion(8, 9)
-		h := nscen.Helper(x, c, kgo.MaxVersions(vers))
+		h := nscen.Helper(x, c, append([]kgo.Opt{kgo.MaxVersions(vers)}, hsasl...)...)
 		ctx, cancel := context.WithTimeout(context.Background(), 30*time.Second)
 		if needGroups {
 			for _, g := range []string{st.names.GA, st.names.GB} {
@@ -288,11 +313,11 @@ func setup(x *netctl.Exec, cfg Cfg, kind *Kind) {
 		h.Close()
 	}
 
-	var copts []kgo.Opt
+	clopts := csasl
 	if cfg.EOF == 1 {
-		copts = append(copts, kgo.AlwaysRetryEOF())
+		clopts = append(clopts, kgo.AlwaysRetryEOF())
 	}
-	cl := nscen.NewClient(x, "c", c, copts...)
+	cl := nscen.NewClient(x, "c", c, clopts...)
 	req := kind.Build(&st.names, cfg.Shape)
 	// The requested items are taken BEFORE the call: some sharders rewrite
 	// the caller's request (AddPartitionsToTxn appends to Transactions).
